@@ -33,8 +33,11 @@ def run(ctx):
     orph = fs.gen_orphan_cases(tier, rng)
     for c in orph:
         extra += fs.fault_isolation_failures(c)
+    # a Config object run on a table with axes and then on one without: the tests that need the axes drop out
+    n_re, f_re = fs.object_reuse_failures(rng, 40 if tier == "quick" else 400)
+    extra += f_re
     r1["failures"] += extra
-    r1["evaluations"] += 2 * len(cases) + 2 * len(orph)
+    r1["evaluations"] += 2 * len(cases) + 2 * len(orph) + n_re
     nfault = sum(1 for c in cases for cx in c["cfg"] for e in cx["entries"] if e["kind"] != "call" or e["fault"] or e["stream"] == "nope")
     out = adapters.merge(
         [r1],
